@@ -46,7 +46,7 @@ CLAIMS = {
          "Ten scenarios (deferred path with 1-2 workers, Stop against direct and deferred Sends, concurrent Stops, Stop/Run/Send, Send and Stop before Run, double Run) run under all schedules up to a preemption bound plus random ones; every recorded sequence of gate arrivals must be a behaviour of the specification with TLC placing the unobservable effects.", "6 C16"),
  "C17": ("TLC invariants on Dirs.tla (bounded counts, every root offers a directory, room is reused) with a limit of 2 + the same bound for every limit >= 1 as an inductive invariant discharged by Apalache (DirsInd.tla, limit symbolic) and proved with TLAPS for any number of directories (proofs/DirsProof.tla) + recorded walks of the storage roots of long random histories validated by TLC against DirsTrace.tla with the real limit",
          "After every API call of histories with hundreds to thousands of writes/deletes/collections/reopenings over 1-3 roots the tree is walked; TLC decides which directories may be created and offered and infers the random choice of directory from the walk. Roots are spelled cleanly or with redundant slashes, the limit is configured as 100 or below (clamped to 100), scripted waves make directories fill, drain and refill; a directory with room that is passed over by more than 30 k consecutive writes (k directories with room) is rejected as starved.", "6 C17"),
- "C18": ("TLC invariants on VersionList.tla (binary search transcribed branch for branch = declarative last-below; collect rule; mirror = list) + replay of every emitted behaviour on the real core.Transaction",
+ "C18": ("TLC invariants on VersionList.tla (binary search transcribed branch for branch = declarative last-below; collect rule; mirror = list) + replay of every emitted behaviour on the real core.Transaction; the collect rule at the use case (content files after every gc step of FsDb.tla behaviours); a TLAPS proof that a collection leaves lookups at or after the horizon unchanged for lists of any length (proofs/CollectProof.tla)",
          "All behaviours of the list state machine (push/pop-front/pop-back/collect) to the stated depth, all 4096 increasing lists over a 12-element domain with all 14 probes, and simulated lists of hundreds to thousands of versions are executed on the real per-key store; results, list content, array mirror, Latest and LastBefore are compared.", "6 C18"),
  "C19": ("layout function in Record.tla, TLC-generated golden vectors and byte strings replayed through the real version-record repository; fixture directory of the pinned revision",
          "Golden records over boundary values are encoded by the real repository and compared byte for byte with the layout function, decoded back, and the layout bytes decode to the same values; byte strings of length 0..42 must decode without panic and be rejected iff shorter than 40; a database directory written by the pinned revision must load to the recorded state. Transcription plus generated vectors: the weakest use of the technique, claimed at that strength.", "6 C19"),
